@@ -28,6 +28,7 @@ pub fn run_property(p: &str) {
         "C13" => c13(),
         "C10" => c10(),
         "C17" => c17(),
+        "C18" => c18(),
         "C20" => c20(),
         "C11" => c11(),
         other => {
@@ -155,6 +156,12 @@ fn c04() {
     for k in 0..tier.pick(4, 10) {
         add(json!({"mode": "during-shutdown", "n": 1, "cap": 8, "jump_k": k, "pb": pb}));
     }
+    // the requester drops the only queue handle right after the request
+    for n in 1..=2 {
+        for boxed in [false, true] {
+            add(json!({"mode": "last-handle-dropped", "n": n, "cap": 8, "boxed": boxed, "pb": pb}));
+        }
+    }
     for k in 0..tier.pick(10, 20) {
         add(json!({"mode": "self", "n": 2, "after": 1, "cap": 8, "jump_k": k, "pb": pb}));
         add(json!({"mode": "separate", "n": 1, "flushers": 1, "cap": 8, "jump_k": k, "pb": pb}));
@@ -208,6 +215,9 @@ fn c05() {
     }
     for boxed in [false, true] {
         jobs.push(Job { harness: "c05_forget", cfg: json!({"main_n": 1, "prod_n": 1, "boxed": boxed, "concurrent_drop": true, "pb": pb}) });
+        for how in ["drop", "into_entry", "forget"] {
+            jobs.push(Job { harness: "c05_forget", cfg: json!({"main_n": 1, "prod_n": 0, "boxed": boxed, "guard": how, "pb": pb}) });
+        }
     }
     finish(rep, jobs, "Histories of append / clone / drop-clone / flush / drop-handle (also by a panic's unwinding) / shut_down / forget on typed and boxed queues with a producer thread racing the shutdown, all schedules within the preemption bound: at the return of drop(handle) the stream log holds every entry appended before the drop began, then a flush, then the stream's Drop, and nothing is written afterwards; on the forget path the stream is drained, flushed and dropped and the writer thread exits within 3 fake flush intervals after the last handle is gone.");
 }
@@ -402,4 +412,30 @@ fn c11() {
         jobs.push(Job { harness: "c11_shared", cfg: json!({"adders": adders, "pb": pb}) });
     }
     finish(rep, jobs, "2-3 threads recording 1-2 values each into ONE fresh SharedHistogram (so the first records race), all schedules within the preemption bound, record/drain of the atomic strategy as marked steps and every std::sync primitive of histogram.rs scheduler-visible: the closed histogram counts every observation exactly once and reports each within 6.25%.");
+}
+
+fn c18() {
+    let rep = Report::from_args("C18", "model_checking");
+    let tier = rep.tier;
+    let pb = tier.pick(2, 3);
+    let mut jobs = Vec::new();
+    let ends = ["stop", "drop", "discard", "overwrite"];
+    // two owned guards ended on two threads, main idle / clearing the stopwatch meanwhile
+    for a in ends {
+        for b in ends {
+            for main in ["none", "clear"] {
+                for prior in [false, true] {
+                    jobs.push(Job { harness: "c18_owned", cfg: json!({"ends": [a, b], "main": main, "prior": prior, "pb": pb}) });
+                }
+            }
+        }
+    }
+    // three guards on three threads
+    let three: &[[&str; 3]] = if tier == Tier::Quick { &[["stop", "drop", "stop"], ["drop", "overwrite", "drop"]] } else { &[["stop", "drop", "stop"], ["drop", "overwrite", "drop"], ["stop", "discard", "overwrite"], ["overwrite", "overwrite", "stop"]] };
+    for e in three {
+        for main in ["none", "clear"] {
+            jobs.push(Job { harness: "c18_owned", cfg: json!({"ends": e, "main": main, "prior": true, "pb": tier.pick(1, 2)}) });
+        }
+    }
+    finish(rep, jobs, "Owned guards of one stopwatch (2 or 3, started at different times on a manually advanced time source) ended on their own threads by stop / drop / discard / overwrite while the owner does nothing or clears the stopwatch, with and without a span loaded before; all schedules within the preemption bound (the shared total's mutex and reference count are loom-visible): the closed value must be the result of some interleaving of the operations' documented steps (add span; nothing; clear then add; clear), and stop() returns the guard's own span.");
 }
